@@ -5,7 +5,7 @@ import "golang.org/x/tools/go/ssa"
 func init() {
 	register(&Property{
 		ID:          "C10",
-		Explanation: "Decides the structural clause 'no storage-layer error is dropped, turned into nil, or turned into not-found' (ERR E1/E2/E3 over every error-returning call of the log-store packages), 'one committed write batch per save, no side writes' and 'Tan record-reader validation results gate replay'. Does not decide crash atomicity per crash point.",
+		Explanation: "Decides the structural clause 'no storage-layer error is dropped, turned into nil, or turned into not-found' (ERR E1/E2/E3 over every error-returning call of the log-store packages), 'one committed write batch per save, no side writes' and 'Tan record-reader validation results gate replay'. Does not decide crash atomicity per crash point. The (operation, sentinel) pairs that may be read as a soft condition are a frozen table; an error examined on some paths only counts as dropped; the Tan durability point fsyncs on every successful path.",
 		NotCovered:  "torn-write behaviour of pebble/Tan at each crash point; that a committed batch is atomic in pebble (trusted)",
 		Run:         runC10,
 	})
